@@ -276,6 +276,13 @@ def resolve_position(q, tensor, level, modes, env, roles, info, outcur=None):
         d = env.defs.get(q.name) if isinstance(q, IR.Variable) else q if not isinstance(q, IR.Variable) else None
         if d is None:
             raise ValueError(f"dense position {pp(q)} of level {l} of {tensor} has no reaching definition")
+        # parent * dim + index, in any operand order of the (commutative) + and *
+        if isinstance(d, IR.Add) and isinstance(d.left, IR.Variable) and roles.kind(d.left.name) == "idx" and isinstance(d.right, IR.Multiply):
+            d = IR.Add(d.right, d.left)
+        if isinstance(d, IR.Add) and isinstance(d.left, IR.Multiply) and isinstance(d.left.left, IR.Variable) and roles.kind(d.left.left.name) == "dim" and not (
+            isinstance(d.left.right, IR.Variable) and roles.kind(d.left.right.name) == "dim"
+        ):
+            d = IR.Add(IR.Multiply(d.left.right, d.left.left), d.right)
         if not (
             isinstance(d, IR.Add)
             and isinstance(d.right, IR.Variable)
